@@ -16,7 +16,7 @@
   ---------------------------------------------------  -------------------------------------------------------
   type/user of the FIRST `type:user@hosts` word         first_word_wins(_reexpand), run_eq_spec(_reexpand),
     naming the host                                       rcmd_lookup_exact (whole-name key: n1 / n10)
-  the user name arrives whole (or the run is refused)   user_whole_or_refused
+  the user name arrives whole (or the run is refused)   user_whole_or_refused, every_l_is_tested (each -l, not only the last)
   otherwise -R / PDSH_RCMD_TYPE and -l, otherwise       defaults_chain, defaultName_eq, last_R_wins_R_over_env,
     the documented defaults                               last_l_wins (composed with C18.precedence)
   rank = zero-based position in the FINAL list          rank_is_position, contacted_as_specified (composed with
@@ -33,10 +33,19 @@
   host expansion (hostlist.c)                            NOT re-proved here: imported -- contacted_as_specified takes
                                                           the final list from C02's cliWords_correct (and C10 for files)
 
+  a refused request: the server's text is relayed    rsh_error_text_bounded (xrcmd.c since e2d5199: never a byte beyond
+    without harm (memory safety of the rsh path)         tmpbuf, the first line cut to LINEBUFSIZE - 2 bytes);
+                                                          witness of the code before: XrcmdErr.rsherr_witness_unchanged (F09-RSHERR)
+
+  The models are the code AS IT IS NOW (/repo HEAD: D10, D11, F09-2BR, F09-SSHPCT, F09-RSHERR repaired); the older form
+  of each function stays selectable (`unchanged`, `first`, `noesc`, `XrcmdErr.errText false`), the check probes the
+  binary and a revert of a repair is reported with a replay.
+
   NOT proved: that the C code equals the models (correspondence checks (a)-(f) of checks/c09.py); rresvport(),
   connect(), xpoll(), accept() themselves (parameters of Exec/Xrcmd.lean: `World`); write(2) failing or being
-  short.  The limit on the length of a user name is modelled (Opt/RcmdUser.lean, `user_whole_or_refused`) under the
-  assumption that every -l but the last is within the limit.
+  short (xrcmd.c ignores the result of its write calls: a short write would send a truncated request -- on a
+  stream socket in blocking mode write(2) of a few KiB is not short unless a signal handler without SA_RESTART
+  interrupts it; pdsh blocks its signals in the worker threads, see C20).
 -/
 import PdshVerif.Exec.Lemmas
 import PdshVerif.Exec.EndToEnd
@@ -46,6 +55,7 @@ import PdshVerif.Opt.RcmdBridge
 import PdshVerif.Props.C18
 import PdshVerif.Opt.RcmdLemmas
 import PdshVerif.Opt.RcmdUser
+import PdshVerif.Exec.XrcmdErr
 
 namespace PdshVerif.C09
 open PdshVerif.Exec PdshVerif.Exec.Spec
@@ -657,7 +667,37 @@ example :
       .lines [⟨some "exec".toList, ['h', '1'], "abcd".toList, 0⟩] := by
   decide
 
+/-- EVERY -l is tested when it is read (opt.c copy_username inside the option loop): a name beyond the limit refuses
+    the run wherever it stands -- also when a later -l replaces it -- and -l options within the limit other than the
+    last one have no influence at all -/
+theorem every_l_is_tested (m : Nat) (re : Bool) (cfg : Cfg) (earlierL : List Str) (words : List Word)
+    (targets : List Str) :
+    ((∃ u ∈ earlierL, u.length > m) → runCheckedAll (some m) re cfg earlierL words targets = .fatal) ∧
+    ((∀ u ∈ earlierL, u.length ≤ m) →
+      runCheckedAll (some m) re cfg earlierL words targets = runChecked (some m) re cfg words targets) :=
+  ⟨long_l_anywhere_refused m re cfg earlierL words targets, runCheckedAll_eq m re cfg earlierL words targets⟩
+
+example :
+    let cfg : Cfg := ⟨["exec".toList], ["exec".toList], none, none, some "bob".toList, "me".toList⟩
+    runCheckedAll (some 4) true cfg ["abcde".toList] [⟨"h1".toList, [['h', '1']], [['h', '1']]⟩] [['h', '1']] = .fatal ∧
+    runCheckedAll (some 4) true cfg ["abcd".toList] [⟨"h1".toList, [['h', '1']], [['h', '1']]⟩] [['h', '1']] =
+      .lines [⟨some "exec".toList, ['h', '1'], "bob".toList, 0⟩] := by
+  decide
+
 /-! ## the rsh handshake: privileged-port loop, stderr back-connection, request (src/modules/xrcmd.c) -/
+
+/-- a server that REFUSES the request sends a text behind its non-NUL verdict byte; xrcmd copies it into a stack
+    buffer of `cap` = LINEBUFSIZE bytes for the diagnostic.  The code as it is now (e2d5199) is memory safe and exact
+    for EVERY reply: the buffer receives the first line of the text without its newline, cut to cap - 2 bytes,
+    followed by "\n\0", and never more than cap bytes (before the repair: `XrcmdErr.rsherr_witness_unchanged`) -/
+theorem rsh_error_text_bounded (cap : Nat) (hcap : cap ≥ 2) (verdict : Char) (rest : List Char) :
+    XrcmdErr.errText true cap verdict rest =
+      some ((rest.takeWhile (· != XrcmdErr.nl)).take (cap - 2) ++ [XrcmdErr.nl, nul]) ∧
+    ∃ t, XrcmdErr.errText true cap verdict rest = some t ∧ t.length ≤ cap :=
+  ⟨XrcmdErr.errText_repaired cap hcap verdict rest, XrcmdErr.errText_repaired_fits cap hcap verdict rest⟩
+
+example : XrcmdErr.errText true 6 'x' "Permission denied.\nmore".toList = some ("Perm".toList ++ [XrcmdErr.nl, nul]) ∧
+    XrcmdErr.errText true 60 'x' "no\nmore".toList = some ("no".toList ++ [XrcmdErr.nl, nul]) := by decide
 
 /-- THE HANDSHAKE MEETS ITS SPECIFICATION IN EVERY WORLD (Exec/XrcmdSpec.lean `meets`): whichever reserved
     ports are busy, however often and with whichever error connect() fails, whether or not sleep() is
